@@ -61,7 +61,12 @@ fn handle(req: &serde_json::Value) -> serde_json::Value {
     let twice = req["twice"].as_bool().unwrap_or(false);
     let mut out = serde_json::Map::new();
     out.insert("id".into(), req["id"].clone());
-    let options: Options = match serde_json::from_value(req.get("options").cloned().unwrap_or(serde_json::json!({}))) {
+    // `options_text`: the configuration as JSON text, read the way the plugin entry reads it (serde_json::from_str)
+    let parsed: Result<Options, serde_json::Error> = match req.get("options_text").and_then(|t| t.as_str()) {
+        Some(text) => serde_json::from_str(text),
+        None => serde_json::from_value(req.get("options").cloned().unwrap_or(serde_json::json!({}))),
+    };
+    let options: Options = match parsed {
         Ok(o) => o,
         Err(e) => {
             out.insert("options_error".into(), e.to_string().into());
